@@ -128,4 +128,4 @@ def run(ctx):
             sites.append((fn, bb, j))
     rules.who(ctx, "who:TokenBucket.tokens", "write of TokenBucket.tokens", sites,
               [TAKE, REFILL, r"^radicle_node::service::limiter::TokenBucket::new$"])
-    ctx.floor("who:TokenBucket.tokens", len(sites), 3, "writes of the token balance")
+    ctx.floor("who:TokenBucket.tokens", len(sites), 2, "writes of the token balance")
